@@ -65,4 +65,85 @@ structure ArrOk (a : WArr) : Prop where
   small : a.items.length * dtypeSize a.dt < 256 ^ 8
   reg : a.dt ∈ ["int8", "int16", "int32", "int64", "uint8", "uint16", "uint32", "uint64", "float32", "float64"]
 
+/-- reading a written element back: dtype and exact bit patterns, name and component count preserved
+    (this is `C13_dataarray_roundtrip`) -/
+theorem readItems_makeDataArray (name : String) (a : WArr) (given : Option Nat) (e : DataArr)
+    (hw : a.wf = true) (hn : a.items.length * dtypeSize a.dt < 256 ^ 8)
+    (hg : ∀ k, given = some k → k = prod a.tail)
+    (hty : ∀ v, dtypeToVtk a.dt = some v → vtkToDtype v = some a.dt)
+    (he : makeDataArray name a given = some e) :
+    readItems e = some (a.dt, a.items) ∧ e.name = name ∧ e.ncomps = prod a.tail := by
+  unfold WArr.wf at hw
+  simp only [Bool.and_eq_true, beq_iff_eq, List.all_eq_true, decide_eq_true_eq, ne_eq] at hw
+  obtain ⟨⟨hsz, hlen⟩, hit⟩ := hw
+  unfold makeDataArray at he
+  -- the component count
+  have hnc : ∀ nc, numComps a given = some nc → nc = prod a.tail := by
+    intro nc h
+    unfold numComps at h
+    cases given with
+    | some k => simp only [Option.some.injEq] at h; subst h; exact hg k rfl
+    | none =>
+      by_cases h0 : a.rows = 0
+      · simp [h0] at h
+      · simp only [h0, if_false, Option.some.injEq] at h; exact h.symm
+  cases hc : numComps a given with
+  | none => simp [hc] at he
+  | some nc =>
+    have hnc2 := hnc nc hc
+    cases hv : dtypeToVtk a.dt with
+    | none => simp [hc, hv] at he
+    | some v =>
+      simp only [hc, hv, Option.some.injEq] at he
+      subst he
+      refine ⟨?_, rfl, hnc2⟩
+      unfold readItems
+      simp only [hty v hv]
+      have hbytes : a.rows * nc * dtypeSize a.dt = (itemsToBytes (dtypeSize a.dt) a.items).length := by
+        rw [itemsToBytes_length, hlen, hnc2]
+      rw [hbytes, noCompRead_encodeText _ (itemsToBytes_lt _ _) (by rw [itemsToBytes_length]; exact hn)]
+      simp only
+      rw [frombuffer_itemsToBytes hsz a.items hit]
+
+theorem all_dtypes_registered :
+    ∀ d ∈ ["int8", "int16", "int32", "int64", "uint8", "uint16", "uint32", "uint64", "float32", "float64"],
+      ∃ v, dtypeToVtk d = some v ∧ vtkToDtype v = some d := by
+  decide
+
+theorem dtypeSize_reg (d : String) (h : dtypeSize d ≠ 0) :
+    d ∈ ["int8", "int16", "int32", "int64", "uint8", "uint16", "uint32", "uint64", "float32", "float64"] := by
+  unfold dtypeSize at h
+  split at h <;> first | (exfalso; exact h rfl) | simp
+
+theorem dtypeSize_le (d : String) : dtypeSize d ≤ 8 := by
+  unfold dtypeSize
+  split <;> omega
+
+/-- `ArrOk` from well-formedness and a bound on the number of scalars -/
+theorem ArrOk.of_wf {a : WArr} (hw : a.wf = true) (hs : a.items.length * 8 < 256 ^ 8) : ArrOk a := by
+  refine ⟨hw, Nat.lt_of_le_of_lt (Nat.mul_le_mul_left _ (dtypeSize_le a.dt)) hs, dtypeSize_reg a.dt ?_⟩
+  unfold WArr.wf at hw
+  simp only [Bool.and_eq_true, decide_eq_true_eq, ne_eq] at hw
+  exact hw.1.1
+
+/-- one written array, read back -/
+theorem ArrOk.read {a : WArr} (hok : ArrOk a) (name : String) (given : Option Nat) (e : DataArr)
+    (hg : ∀ k, given = some k → k = prod a.tail) (he : makeDataArray name a given = some e) :
+    readItems e = some (a.dt, a.items) ∧ e.name = name ∧ e.ncomps = prod a.tail := by
+  refine readItems_makeDataArray name a given e hok.wf hok.small hg ?_ he
+  intro v hv
+  obtain ⟨v', hv1, hv2⟩ := all_dtypes_registered a.dt hok.reg
+  rw [hv1] at hv
+  cases hv
+  exact hv2
+
+/-- an array that is `ArrOk` is written whenever its component count can be determined -/
+theorem ArrOk.write {a : WArr} (hok : ArrOk a) (name : String) (given : Option Nat)
+    (hr : given = none → a.rows ≠ 0) : ∃ e, makeDataArray name a given = some e := by
+  obtain ⟨v, hv, _⟩ := all_dtypes_registered a.dt hok.reg
+  unfold makeDataArray numComps
+  cases given with
+  | some k => simp only [hv]; exact ⟨_, rfl⟩
+  | none => simp only [hr rfl, if_false, hv]; exact ⟨_, rfl⟩
+
 end Fc.W
